@@ -208,8 +208,11 @@ class CSSUnknownRule(cssrule.CSSRule):
 
             # set all
             if wellformed:
-                self.atkeyword = self._tokenvalue(attoken)
-                self._setSeq(newseq)
+                keyword = self._tokenvalue(attoken)
+                # (refused if the rule has another keyword: raised or logged)
+                self.atkeyword = keyword
+                if self.atkeyword == self._normalize(keyword):
+                    self._setSeq(newseq)
 
     cssText = property(
         fget=_getCssText,
